@@ -20,6 +20,8 @@ type (
 		stderrRing     *ring.Ring
 		stderrLock     sync.RWMutex
 		exitCode       int
+		// protects cmd and exitCode, they are read by Pid() and ExitCode() while run() is still going
+		stateLock sync.Mutex
 	}
 )
 
@@ -61,10 +63,20 @@ func (process *Process) Stderr() []string {
 }
 
 func (process *Process) ExitCode() int {
+	process.stateLock.Lock()
+	defer process.stateLock.Unlock()
 	return process.exitCode
 }
 
+func (process *Process) setExitCode(exitCode int) {
+	process.stateLock.Lock()
+	defer process.stateLock.Unlock()
+	process.exitCode = exitCode
+}
+
 func (process *Process) Pid() int {
+	process.stateLock.Lock()
+	defer process.stateLock.Unlock()
 	if process.cmd == nil || process.cmd.Process == nil {
 		return -1
 	}
@@ -73,7 +85,9 @@ func (process *Process) Pid() int {
 
 // Run until input channel is closed
 func (process *Process) run() {
+	process.stateLock.Lock()
 	process.cmd = exec.Command(process.executablePath)
+	process.stateLock.Unlock()
 	stdout, err := process.cmd.StdoutPipe()
 	if err != nil {
 		log.Printf("Converter (%s): Failed to create stdout pipe: %q", process.converterName, err)
@@ -138,7 +152,9 @@ func (process *Process) run() {
 		return
 	}
 
+	process.stateLock.Lock()
 	err = process.cmd.Start()
+	process.stateLock.Unlock()
 	if err != nil {
 		log.Printf("Converter (%s): Failed to start process: %q", process.converterName, err)
 		stdout.Close()
@@ -158,11 +174,11 @@ func (process *Process) run() {
 			if err := process.cmd.Wait(); err != nil {
 				if _, ok := err.(*exec.ExitError); !ok {
 					log.Printf("Converter (%s): Failed to wait for process: %q", process.converterName, err)
-					process.exitCode = -1
+					process.setExitCode(-1)
 				}
 			}
 			if process.cmd.ProcessState != nil {
-				process.exitCode = process.cmd.ProcessState.ExitCode()
+				process.setExitCode(process.cmd.ProcessState.ExitCode())
 			}
 
 			// drain input channel to unblock caller
@@ -178,9 +194,9 @@ func (process *Process) run() {
 	if err := process.cmd.Wait(); err != nil {
 		if _, ok := err.(*exec.ExitError); !ok {
 			log.Printf("Converter (%s): Failed to wait for process: %q", process.converterName, err)
-			process.exitCode = -1
+			process.setExitCode(-1)
 			return
 		}
 	}
-	process.exitCode = process.cmd.ProcessState.ExitCode()
+	process.setExitCode(process.cmd.ProcessState.ExitCode())
 }
